@@ -85,9 +85,9 @@ type vxOpenFile struct {
 }
 
 type vxFS struct {
-	root   *vxInode
-	log    []vxFSCall
-	files  map[*os.File]*vxOpenFile
+	root    *vxInode
+	log     []vxFSCall
+	files   map[*os.File]*vxOpenFile
 	nextIno uint64
 
 	// fault injection: while budget > 0 every call asks a fresh symbolic boolean whether it fails now
@@ -996,23 +996,8 @@ func omode2ref(m uint8) int {
 	return fl
 }
 
-// vxContained: reference lexical resolver for C18 — does the absolute path p, after resolving "", "." and ".."
-// element by element, still lie in (or equal) the directory root? (No symlinks by hypothesis.)
-func vxContained(root string, p string) bool {
-	stack := vxLexResolve(p)
-	rs := vxLexResolve(root)
-	if len(stack) < len(rs) {
-		return false
-	}
-	for i := range rs {
-		if stack[i] != rs[i] {
-			return false
-		}
-	}
-	return true
-}
-
-// vxLexResolve returns the element list of the lexically resolved absolute path ("/" = empty list).
+// vxLexResolve returns the element list of the lexically resolved absolute path ("/" = empty list). Used to compare
+// the spelling of paths (C16/C17); C18 judges confinement with its own resolver (refInside in c18_confine.go).
 func vxLexResolve(p string) []string {
 	var stack []string
 	for _, e := range vxSplitPath(p) {
@@ -1074,4 +1059,3 @@ func vxKindType(kind int) uint8 {
 	}
 	return 0
 }
-
